@@ -159,3 +159,25 @@ Proof.
       destruct RS as [R0|R1]; [rewrite R0; reflexivity|]. destruct (drop_trailing_zeros rest) as [|[n|s] rr]; try discriminate. reflexivity.
     + pose proof (dtz_nonzero_last [] z Zz) as Q2. cbn [app] in Q2. rewrite Q2. cbn [app]. apply below_succ_tail. exact RS.
 Qed.
+
+(* ---- release() and bump() are made of numbers only ------------------------------------------------------------ *)
+Lemma all_num_removelast l : all_num l = true -> all_num (removelast l) = true.
+Proof.
+  unfold all_num. induction l as [|x r IH]; [reflexivity|]. intros H. cbn [forallb] in H. apply andb_true_iff in H as [Hx Hr].
+  destruct r as [|y r']; [reflexivity|]. change (removelast (x :: y :: r')) with (x :: removelast (y :: r')). cbn [forallb].
+  rewrite Hx. apply IH, Hr.
+Qed.
+Lemma all_num_incr_last l : all_num l = true -> all_num (incr_last l) = true.
+Proof.
+  unfold incr_last, all_num. intros H. destruct (rev l) as [|[n|s] r] eqn:E; try exact H.
+  assert (Hr : forallb is_num (rev l) = true).
+  { apply forallb_forall. intros x Hx. apply in_rev in Hx. revert x Hx. apply forallb_forall. exact H. }
+  rewrite E in Hr. cbn [forallb] in Hr. apply andb_true_iff in Hr as [_ Hr].
+  apply forallb_forall. intros x Hx. apply in_rev in Hx. rewrite ?rev_involutive in Hx. destruct Hx as [<-|Hx]; [reflexivity|].
+  revert x Hx. apply forallb_forall. exact Hr.
+Qed.
+Theorem release_and_bump_numeric segs : forallb is_num (release_list segs) = true /\ forallb is_num (bump_list segs) = true.
+Proof.
+  split; [apply take_nums_all|]. unfold bump_list. apply all_num_incr_last.
+  destruct (Nat.ltb 1 (List.length (take_nums segs))); [apply all_num_removelast|]; apply take_nums_all.
+Qed.
